@@ -142,6 +142,32 @@ fn main() {
         selftest::write_fuzz_seeds(&dir);
         return;
     }
+    if id == "deep" {
+        // child process of the C19 deep-input stage: mlv deep <kind> <len>
+        let kind: usize = args.get(2).and_then(|s| s.parse().ok()).unwrap_or(0);
+        let n: usize = args.get(3).and_then(|s| s.parse().ok()).unwrap_or(100_000);
+        let lib = args.get(4).map(|s| s.as_str()) == Some("lib");
+        let res = if lib { mlv::props::c04::deep_check(kind, n) } else { mlv::props::c19::deep_check(kind, n) };
+        match res {
+            Ok(()) => {
+                println!("DEEP-OK kind={kind} len={n}");
+                std::process::exit(0);
+            }
+            Err(m) => {
+                println!("DEEP-VIOLATION kind={kind} len={n}: {m}");
+                std::process::exit(1);
+            }
+        }
+    }
+    if id == "carrytable" {
+        let t0 = std::time::Instant::now();
+        let t = mlv::gen::lemire_carry_table();
+        println!("lemire carry table: {} entries in {:.2} s; independent re-check: {:?}", t.len(), t0.elapsed().as_secs_f64(), mlv::gen::validate_carry_table());
+        for e in t.iter().step_by(t.len() / 12 + 1) {
+            println!("  {:?}", e);
+        }
+        return;
+    }
     if id == "secondproduct" {
         selftest::second_product_report();
         return;
@@ -196,6 +222,35 @@ fn main() {
                 _ => {
                     println!("VIOLATION property={} replay={}", id, args[3]);
                     std::process::exit(1);
+                }
+            }
+        }
+        if v["case"]["kind"] == "deep" {
+            let which = v["case"]["binary"].as_str().unwrap_or("release");
+            let bin = match which {
+                "dbgchk" => std::env::var("MLV_DBGCHK_BIN").ok(),
+                "dbg0" => std::env::var("MLV_DBG0_BIN").ok(),
+                _ => std::env::current_exe().ok().map(|p| p.display().to_string()),
+            };
+            let Some(bin) = bin else {
+                eprintln!("HARNESS-ERROR the {which} build is not available (use run.sh)");
+                std::process::exit(2);
+            };
+            let st = std::process::Command::new(bin)
+                .args(["deep", &v["case"]["input_kind"].as_u64().unwrap_or(0).to_string(), &v["case"]["len"].as_u64().unwrap_or(100_000).to_string(), if id == "C04" { "lib" } else { "front" }])
+                .status();
+            match st {
+                Ok(s) if s.success() => {
+                    println!("replay: property {} holds on this deep input ({which} build)", id);
+                    std::process::exit(0);
+                }
+                Ok(_) => {
+                    println!("VIOLATION property={} replay={}", id, args[3]);
+                    std::process::exit(1);
+                }
+                Err(e) => {
+                    eprintln!("HARNESS-ERROR cannot start the child: {e}");
+                    std::process::exit(2);
                 }
             }
         }
